@@ -198,8 +198,6 @@ DEMOS = {
 def replay_ctx(ctx, cands):
     from .cli import run_jawk, show
     for c in cands:
-        if c.unmodelled:
-            c.status = 'inconclusive'; continue
         demo = DEMOS.get(c.role)
         if demo is None:
             c.status = 'unit'; continue
